@@ -759,6 +759,20 @@ func execHybrid(c hyCase, x *verifkit.Ctx, c15 bool) (fail *verifkit.Failure) {
 				// attributed to that finding while it is listed
 				if st.N == 0 {
 					f.Sig += "/after-write-during-promotion"
+					// diagnostics (seen once in a thorough run and not reproduced in 12000 repetitions)
+					diag := fmt.Sprintf(" [diagnostics: entry pool %v, watcher ran=%v ok=%v err=%v", c.Pool, wr.ran, wr.ok, wr.err)
+					if e := memGet(st.K); e != nil {
+						store.policyMu.Lock()
+						diag += fmt.Sprintf("; resident entry %p key=%v value=%v cost=%d expire=%d flags{removed=%v deleted=%v fromNVM=%v window=%v probation=%v protected=%v} in-policy-list=%v", e, e.key, e.value, e.weight.Load(), e.expire.Load(), e.flag.IsRemoved(), e.flag.IsDeleted(), e.flag.IsFromNVM(), e.flag.IsWindow(), e.flag.IsProbation(), e.flag.IsProtected(), e.meta.prev != nil)
+						store.policyMu.Unlock()
+					} else {
+						diag += "; key not resident now"
+					}
+					sec.mu.Lock()
+					se, has := sec.m[st.K]
+					sec.mu.Unlock()
+					diag += fmt.Sprintf("; secondary copy present=%v value=%v; model value before the step %v]", has, se.val, m.val)
+					f.Msg += diag
 				}
 				return f
 			}
